@@ -108,13 +108,16 @@ def addDiag (line : Nat) (msg : String) : V Unit :=
 
 def findMeta (s : VState) (name : String) : Option MMeta := s.metas.find? (·.name = name)
 
-/-- `getBasicType` of model.go -/
-def getBasicType (t : String) : String :=
-  match t.toLower with
-  | "i8" | "int8" => "i8" | "i16" | "int16" => "i16" | "i32" | "int32" => "i32" | "i64" | "int64" => "i64"
-  | "u8" | "uint8" => "u8" | "u16" | "uint16" => "u16" | "u32" | "uint32" => "u32" | "u64" | "uint64" => "u64"
-  | "f32" | "float32" => "f32" | "f64" | "float64" => "f64"
-  | _ => t
+/-- the `switch` of `getBasicType` (model.go), on the already lower-cased spelling -/
+def basicTypeCanon (t : String) : Option String :=
+  match t with
+  | "i8" | "int8" => some "i8" | "i16" | "int16" => some "i16" | "i32" | "int32" => some "i32" | "i64" | "int64" => some "i64"
+  | "u8" | "uint8" => some "u8" | "u16" | "uint16" => some "u16" | "u32" | "uint32" => some "u32" | "u64" | "uint64" => some "u64"
+  | "f32" | "float32" => some "f32" | "f64" | "float64" => some "f64"
+  | _ => none
+
+/-- `getBasicType` of model.go: the switch is on `strings.ToLower(fieldType)`, the default returns the spelling as written -/
+def getBasicType (t : String) : String := (basicTypeCanon t.toLower).getD t
 
 /-- `FieldAttribute.GetType()` -/
 def attrGetType : AttrK → String
